@@ -52,6 +52,8 @@ def reset():
     M.ucmm.UCMM.sessions.clear()
     M.device.Connection_Manager.forwards.clear()
     dict.clear(M.main.tags)
+    dict.clear(M.main.options)      # main() is a once-per-process entry point: its module-level options persist
+    dict.clear(M.main.srv_ctl)
     M.main.connections.clear() if hasattr(M.main.connections, "clear") else None
     M.device.dialect = None
     # Shared class-level parsers may be left locked by an exception thrown through a `with parser:` -- they are not
